@@ -163,3 +163,7 @@ m("C10", ["R16"], NI, "        self.hi.is_nan() || self.lo.is_nan()\n    }\n}\n\
 m("C16", ["R41", "R43"], TR, "    iter.fold(*init, |a, n| x * a + n)", "    iter.fold(*init, |a, n| x * a - n)", "Horner step over the descending sine table subtracts the coefficient", on="J1-3")
 m("C14", ["R35", "R39d"], EX, "        let x0 = n * 0.0078125; // n / 128, exact", "        let x0 = n * 0.0078; // n / 128", "reciprocal multiplication with a constant that is not 2^-7", on="J1-6")
 m("C14", ["R35"], EX, "            let y = libm::round(self.hi + self.hi);", "            let y = libm::round(self.hi + self.lo);", "h + h (accepted for 2.0 * h) mistyped as hi + lo", on="J1-6")
+# the loop of powi in a private helper (refactoring K0-1)
+m("C13", ["R26"], B, "let result = self.powu(n.unsigned_abs());", "let result = self.powu(n as u32);", "the extracted loop helper is handed `n as u32` instead of |n| (wrong for every negative exponent)", on="K0-1")
+m("C13", ["R26"], B, "            value *= value;\n            n_pos >>= 1;\n        }\n        result\n    }", "            value *= value;\n            n_pos >>= 2;\n        }\n        result\n    }", "the extracted loop helper consumes two exponent bits per squaring", on="K0-1")
+m("C13", ["R26"], B, "        let mut value = self;\n        while n_pos > 0 {", "        let mut value = self * self;\n        while n_pos > 0 {", "the extracted loop helper starts from self^2", on="K0-1")
